@@ -30,9 +30,11 @@ UnmarshalReason(e) ==
      (IF e.fresh.res = "panic" \/ e.used.res = "panic" THEN "unmarshal_panic" ELSE "")
   ELSE LET r1 == DecodeReason(e.fresh, e.want, e.bytes, "reference_") IN
        IF r1 # "" THEN r1 ELSE DecodeReason(e.used, e.want, e.bytes, "reference_reused_")
+\* fixed values marshalled and decoded after every event must give what they gave when the harness started
+Canary(e, r) == IF r # "" THEN r ELSE IF ~e.canary_ok THEN "shared_state_changed_by_earlier_use" ELSE ""
 Reason(e) ==
-  CASE e.ev = "marshal" -> MarshalReason(e)
-    [] e.ev = "unmarshal" -> UnmarshalReason(e)
+  CASE e.ev = "marshal" -> Canary(e, MarshalReason(e))
+    [] e.ev = "unmarshal" -> Canary(e, UnmarshalReason(e))
     [] OTHER -> "unknown_event"
 Init == l = 1 /\ st = 0
 Next ==
